@@ -163,6 +163,8 @@ type Sched struct {
 	AllowCancel bool // enable cancellation of a request's context (at most MaxCancels times)
 	AllowFailCtx bool // enable a store failure whose error wraps context.Canceled
 	AllowReadFail bool // enable read_fail(t): the next store read of request t fails (at most MaxReadFails times)
+	AllowClose bool // enable a graceful shutdown of the commander (Commander.Close), once per execution
+	Closes     int
 	ReadFails    int
 	MaxReadFails int
 	closedCh  chan struct{}
@@ -706,6 +708,14 @@ func (s *Sched) Enabled() []Choice {
 	if s.AllowCrash && s.Crashes < s.MaxCrashes && (alive || s.workerParked) {
 		cs = append(cs, Choice{Kind: "crash", Tid: -1})
 	}
+	if s.AllowClose && s.Closes == 0 && (alive || s.workerParked) {
+		// Commander.Close() waits for the store call the worker is in: the choice includes the outcome of that write
+		if s.workerParked {
+			cs = append(cs, Choice{Kind: "close_ok", Tid: -1}, Choice{Kind: "close_fail", Tid: -1})
+		} else {
+			cs = append(cs, Choice{Kind: "close", Tid: -1})
+		}
+	}
 	sort.SliceStable(cs, func(i, j int) bool { return false })
 	return cs
 }
@@ -959,6 +969,8 @@ func (s *Sched) do(c Choice) Choice {
 		s.crash()
 	case "crash":
 		s.crash()
+	case "close", "close_ok", "close_fail":
+		s.close(c.Kind)
 	}
 	return c
 }
@@ -974,6 +986,90 @@ func (s *Sched) crash() {
 		}
 	}
 	s.Trace = append(s.Trace, Event{Tid: -1, Point: "crash"})
+	s.boot()
+}
+
+// close: the REAL Commander.Close() (Batcher.Close -> job.Runner.Close -> the stop branch of Runner.Run). It blocks
+// until the store call the worker is in has returned: that write succeeds (close_ok) or fails (close_fail). Nobody may be
+// acknowledged by a close: the requests parked at their wait are then let run for a short grace -- in the unchanged
+// code they block for ever (their persistence signal never comes); one that comes back is recorded with its answer,
+// for the oracles and the model to judge -- and the rest is never answered; the next generation boots from the disk.
+func (s *Sched) close(kind string) {
+	s.Closes++
+	cmd := s.cmd
+	// requests whose entry was on disk BEFORE the close have been given their persistence signal by the normal
+	// termination of their batch: they are abandoned with the generation like everybody else, not probed
+	before := map[string]bool{}
+	for _, l := range s.Disk.snapshot() {
+		before[l.ID.String()] = true
+	}
+	closed := make(chan struct{})
+	go func() {
+		defer func() { _ = recover() }()
+		cmd.Close()
+		close(closed)
+	}()
+	if s.workerParked {
+		// the stop request must have reached the runner before the worker leaves the store call (otherwise the job is
+		// terminated normally, which is the schedule persist_ok ; close, not this one): the runner is idle in its select
+		time.Sleep(3 * time.Millisecond)
+		want := s.workerBatch
+		s.workerParked = false
+		if kind == "close_ok" {
+			s.workerCh <- 1
+			deadline := time.Now().Add(5 * time.Second)
+			for {
+				d := s.Disk.snapshot()
+				if len(want) == 0 || (len(d) > 0 && d[len(d)-1] == want[len(want)-1]) {
+					break
+				}
+				if time.Now().After(deadline) {
+					s.Fault = "timeout waiting for InsertLogs to write (close)"
+					return
+				}
+				time.Sleep(20 * time.Microsecond)
+			}
+		} else {
+			s.workerCh <- 0
+		}
+	}
+	s.pending = 0 // what is queued is never handed to the store
+	select {
+	case <-closed:
+	case <-time.After(5 * time.Second):
+		s.Fault = "timeout waiting for Commander.Close to return"
+		return
+	}
+	s.Trace = append(s.Trace, Event{Tid: -1, Point: "closed", KV: map[string]string{"kind": kind}})
+	// drain what arrived meanwhile (nothing is expected)
+	for drained := false; !drained; {
+		select {
+		case n := <-s.notes:
+			w := false
+			s.absorb(n, &w, -2)
+		default:
+			drained = true
+		}
+	}
+	for _, t := range s.threads {
+		if t.started && !t.finished && t.gen == s.Gen && t.parkedAt == "wait" && !t.floating && !t.probed && t.kv["dry"] != "true" && !before[t.kv["id"]] {
+			s.probe(t)
+			for !t.finished && !t.floating && s.Fault == "" {
+				t.resume <- struct{}{}
+				s.settle(t.id)
+			}
+		}
+	}
+	if s.Fault != "" {
+		return
+	}
+	s.cancel()
+	for _, t := range s.threads {
+		if t.started && !t.finished && t.gen == s.Gen {
+			t.finished = true
+			t.resp = Response{Err: "crashed"}
+		}
+	}
 	s.boot()
 }
 
